@@ -63,6 +63,8 @@ def documents(pm: ProgramModel, mb: ModelBuilder) -> dict[str, list[tuple[str, A
     docs["FeatureIDEReader"].append(("written/rich", written("FeatureIDEWriter", m), m))
     docs["FeatureIDEReader"].append(("third-party/explicit-false+graphics",
                                      c09.fide_doc(ref9, True, True, True).encode("utf8"), ref9))
+    docs["FeatureIDEReader"].append(("third-party/mandatory-flags-in-groups",
+                                     c09.fide_doc(ref9, True, False, False, group_flags=True).encode("utf8"), ref9))
     mm2 = mb.model(mb.feature("R"), [])
     doc = ('<featureModel><struct><and name="R"><feature name="A"/><feature name="B"/><feature name="C"/></and>'
            "</struct><constraints><rule><not><conj><var>A</var><var>B</var><var>C</var></conj></not></rule>"
@@ -145,9 +147,9 @@ def check(pm: ProgramModel, ctx: Ctx) -> None:
                     it = Interp(pm)
                     badn = []
                     for c_ref, c in zip(ref._f["ctcs"], model._f["ctcs"]):
-                        if not logical_only(c_ref._f["_ast"]._f["root"]):
-                            continue    # attribute references / aggregates: what counts as a feature
-                            #             name there is not settled by the property
+                        if _has_aggregate(c_ref._f["_ast"]._f["root"]):
+                            continue    # operands of aggregate functions: whether they count as
+                            #             "feature names written in it" is not settled by the property
                         want = sorted({x for x in names_of(c_ref._f["_ast"]._f["root"]) if _is_name(x)})
                         try:
                             got = sorted(it.call(gf, [c]))
@@ -162,6 +164,15 @@ def check(pm: ProgramModel, ctx: Ctx) -> None:
     sites(pm, ctx, executed)
     mechanism(pm, ctx, mb)
     ctx.floor("C02", "obligations", len(ctx.obligations), 30)
+
+
+def _has_aggregate(n: Any) -> bool:
+    from ..logic import opname
+    if not isinstance(n, AObj):
+        return False
+    if opname(n) in ("SUM", "AVG", "LEN", "FLOOR", "CEIL"):
+        return True
+    return _has_aggregate(n._f.get("left")) or _has_aggregate(n._f.get("right"))
 
 
 def _is_name(x: str) -> bool:
